@@ -52,6 +52,8 @@ func cmdDump(args []string) {
 	only := fs.String("solver", "", "")
 	keep := fs.Bool("keep", false, "keep smt files")
 	noSolve := fs.Bool("nosolve", false, "generate only")
+	bisect := fs.Bool("bisect", false, "find the first assertion that makes the assumptions unsatisfiable")
+	fullCovers := fs.Bool("fullcovers", false, "cover queries on the full assumption set")
 	fullModel := fs.String("fullmodel", "", "write the full model of failing obligations whose name contains this string to /tmp/gvc-model-<n>.txt")
 	fs.Parse(args)
 	pats := defaultPkgs
@@ -91,6 +93,10 @@ func cmdDump(args []string) {
 		t1 := time.Now()
 		rep := e.verifyFunction(fn, ct)
 		gen := time.Since(t1).Seconds()
+		if *bisect && len(rep.Obls) > 0 {
+			bisectAssumptions(rep.Obls[len(rep.Obls)-1])
+			continue
+		}
 		if *noSolve {
 			tot := 0
 			for _, o := range rep.Obls {
@@ -99,7 +105,7 @@ func cmdDump(args []string) {
 			fmt.Printf("== %s: %d obligations generated in %.2fs, total script bytes %d\n", rep.Func, len(rep.Obls), gen, tot)
 			continue
 		}
-		solveAll(rep.Obls, solveOpts{timeoutS: *timeout, workDir: work, jobs: 8, only: *only})
+		solveAll(rep.Obls, solveOpts{timeoutS: *timeout, workDir: work, jobs: 8, only: *only, fullCovers: *fullCovers})
 		fmt.Printf("== %s: %d blocks %d instrs %d loops %d exits, %d obligations (gen %.2fs)\n", rep.Func, rep.Blocks, rep.Instrs, rep.Loops, rep.Exits, len(rep.Obls), gen)
 		for _, s := range rep.SpecErrs {
 			fmt.Println("   SPEC ERROR:", s)
@@ -115,6 +121,10 @@ func cmdDump(args []string) {
 		for _, o := range rep.Obls {
 			status := o.Result
 			if o.Kind == "cover-pre" {
+				continue
+			}
+			if o.Kind == "cover-exit" && o.Result == "unsat" {
+				fmt.Printf("   DEAD unsat   %-9s %5.2fs %s\n", o.Solver, o.TimeS, o.Name)
 				continue
 			}
 			good := (o.ExpectSat && o.Result == "sat") || (!o.ExpectSat && o.Result == "unsat")
@@ -248,5 +258,41 @@ func dumpFullModel(o *Obl) {
 	})
 	for _, l := range lines {
 		fmt.Printf("        path: %s\n", l)
+	}
+}
+
+// bisectAssumptions finds the first assertion that makes the accumulated assumptions of a
+// function's verification context unsatisfiable (debugging aid for vacuity).
+func bisectAssumptions(o *Obl) {
+	c := o.ctx
+	check := func(n int) string {
+		tmp := *o
+		tmp.NAsserts = n
+		tmp.Cond = sTrue
+		tmp.Goal = sTrue
+		tmp.ExpectSat = true
+		tmp.Extra = nil
+		script := tmp.scriptOpt(false, false)
+		os.WriteFile("/tmp/gvc-bisect.smt2", []byte(script), 0o644)
+		out, _ := exec.Command("z3-new", "-T:20", "/tmp/gvc-bisect.smt2").CombinedOutput()
+		return strings.TrimSpace(strings.SplitN(string(out), "\n", 2)[0])
+	}
+	n := len(c.asserts)
+	fmt.Printf("   all %d assertions: %s\n", n, check(n))
+	lo, hi := 0, n
+	for lo < hi {
+		mid := (lo + hi) / 2
+		if check(mid) == "unsat" {
+			hi = mid
+		} else {
+			lo = mid + 1
+		}
+	}
+	if lo <= n && lo > 0 {
+		a := c.asserts[lo-1]
+		if len(a) > 1500 {
+			a = a[:1500]
+		}
+		fmt.Printf("   first unsat prefix: %d\n   assertion: %s\n", lo, a)
 	}
 }
